@@ -183,7 +183,7 @@ Proof.
       assert (IM : forallb (fun w => implb (live p s w) (chan_empty s w)) (ids p) = true).
       { apply forallb_forall. intros w Hw. destruct (live p s w) eqn:LV; simpl; auto. }
       destruct (existsb (fun w => live p s w && chan_empty s w) (ids p)) eqn:E2.
-      * exists LIdleEnter. simpl. unfold do_idle_enter. rewrite PH, E2, IM. simpl. eauto.
+      * exists LIdleEnter. simpl. unfold do_idle_enter. rewrite PH, E2. simpl. eauto.
       * exists LEnd. simpl. unfold do_end. rewrite PH.
         assert (NL : forallb (fun w => negb (live p s w)) (ids p) = true).
         { apply forallb_forall. intros w Hw. pose proof (existsb_false_forallb _ _ E2) as F2.
@@ -287,7 +287,7 @@ Proof.
     unfold measure. simpl (st_phase _). lia.
   - (* idle enter *)
     unfold do_idle_enter in H. destruct (st_phase s) eqn:PH; try discriminate.
-    destruct (_ && _); [|discriminate]. inversion H; subst s'.
+    destruct (existsb _ _); [|discriminate]. inversion H; subst s'.
     unfold measure. rewrite work_set_phase. simpl (st_phase _). rewrite PH. simpl. lia.
   - (* flush *)
     unfold do_flush in H.
